@@ -9,7 +9,7 @@
 //! Oracle (from the statement): `from_bytes(b)` / `from_relay_payload(k, p)` accepted  ==>  the reference
 //! verification holds (independent BEP44 signable `3:seqi<ts>e1:v<len>:<payload>`, ed25519-dalek *non-strict* verify
 //! with the embedded / given key — the most permissive reading of "verifies") and the payload parses as a DNS
-//! packet and the size is within the documented limits; a changed copy of an accepted packet is rejected; nothing
+//! packet; a changed copy of an accepted packet is rejected; nothing
 //! obtained from any constructor panics on inspection. Rejection of something the reference accepts is *not* a
 //! violation (the statement says "only if"); it is visible as an outcome, and the run is vacuous (exit 2) unless the
 //! seed packets themselves are accepted.
@@ -38,6 +38,8 @@ enum Case {
     Raw { len: usize, fill: u8 },
     /// `from_parts_unchecked`
     Parts { key_kind: usize, sig_len: usize, ts: u64, enc_kind: usize },
+    /// harness-signed (authentic signature) packet over a payload shape that may not parse
+    SignedPayload { key: usize, ts: u64, enc_kind: usize },
     /// `from_bytes_unchecked` of a seed with the key bytes replaced
     UncheckedKey { seed: usize, key_kind: usize },
 }
@@ -79,7 +81,8 @@ fn ref_parses(b: &[u8]) -> bool {
     b.len() >= 104 && simple_dns::Packet::parse(&b[104..]).is_ok()
 }
 fn ref_authentic(b: &[u8]) -> bool {
-    (104..=1104).contains(&b.len()) && ref_verifies(b) && ref_parses(b)
+    // (the statement does not mention the size limit, so the reference does not either)
+    b.len() >= 104 && ref_verifies(b) && ref_parses(b)
 }
 
 // ---------- deterministic seeds (signed in the harness, independent of Timestamp::now) ----------
@@ -211,11 +214,10 @@ fn check_bytes(b: &[u8], original: Option<&[u8]>) -> Verdict {
                 return Verdict::Bad(
                     None,
                     format!(
-                        "from_bytes accepted {} bytes that are not authentic (reference: verifies={} parses={} len-ok={})",
+                        "from_bytes accepted {} bytes that are not authentic (reference: signature verifies={} payload parses={})",
                         b.len(),
                         ref_verifies(b),
-                        ref_parses(b),
-                        (104..=1104).contains(&b.len())
+                        ref_parses(b)
                     ),
                 );
             }
@@ -266,11 +268,35 @@ fn check_bytes(b: &[u8], original: Option<&[u8]>) -> Verdict {
     Verdict::Ok(out)
 }
 
+static ALL: std::sync::Mutex<std::collections::BTreeMap<String, u64>> = std::sync::Mutex::new(std::collections::BTreeMap::new());
+
 fn run_case(ctx: &Ctx, seeds: &Seeds, case: &Case) {
     match quiet_catch(|| run_case_inner(seeds, case)) {
-        Ok((class, Verdict::Ok(outcome))) => ctx.eval(&class, &outcome),
+        Ok((class, Verdict::Ok(outcome))) => {
+            *ALL.lock().unwrap().entry(format!("{class} => {outcome}")).or_insert(0) += 1;
+            ctx.eval(&class, &outcome)
+        }
         Ok((_, Verdict::Bad(k, msg))) => ctx.discrepancy(k, &msg, case),
         Err(p) => ctx.discrepancy(None, &format!("panic outside catch: {p}"), case),
+    }
+}
+
+fn payload_shape(sd: &Seeds, enc_kind: usize) -> Vec<u8> {
+    match enc_kind {
+        0 => sd.packets[0][104..].to_vec(),
+        1 => vec![],
+        2 => vec![0u8; 12], // bare DNS header
+        3 => vec![0xff; 50],
+        4 => sd.packets[2][104..].to_vec(), // 1000 bytes
+        5 => [&sd.packets[2][104..], &[0u8][..]].concat(), // 1001 bytes (trailing byte after the last record)
+        6 => sd.packets[0][104..sd.packets[0].len() - 3].to_vec(), // cut inside the last record
+        7 => vec![0u8; 11],
+        _ => {
+            // header announcing one answer that is missing
+            let mut h = vec![0u8; 12];
+            h[7] = 1;
+            h
+        }
     }
 }
 
@@ -409,6 +435,15 @@ fn run_case_inner(sd: &Seeds, case: &Case) -> (String, Verdict) {
             let b: Vec<u8> = (0..*len).map(|i| if *fill == 0xaa { (i as u8).wrapping_mul(31).wrapping_add(7) } else { *fill }).collect();
             (format!("raw:{}", if *len < 104 { "short" } else if *len > 1104 { "long" } else { "in-range" }), check_bytes(&b, None))
         }
+        Case::SignedPayload { key, ts, enc_kind } => {
+            let payload = payload_shape(sd, *enc_kind);
+            let b = assemble(&secrets()[*key], *ts, &payload);
+            let class = format!("signed-payload:{}", if ref_parses(&b) { "parses" } else { "does-not-parse" });
+            if !ref_verifies(&b) {
+                machinery_error("harness-signed packet does not verify under the reference");
+            }
+            (class, check_bytes(&b, None))
+        }
         Case::UncheckedKey { seed, key_kind } => {
             let mut b = sd.packets[*seed].clone();
             let inv = invalid_keys();
@@ -433,15 +468,7 @@ fn run_case_inner(sd: &Seeds, case: &Case) -> (String, Verdict) {
                 _ => unhex(SMALL_ORDER[3]),
             };
             let sig: Vec<u8> = sd.packets[0][32..96].iter().copied().cycle().take(*sig_len).collect();
-            let enc: Vec<u8> = match enc_kind {
-                0 => sd.packets[0][104..].to_vec(),
-                1 => vec![],
-                2 => vec![0u8; 12], // bare DNS header
-                3 => vec![0xff; 50],
-                4 => sd.packets[2][104..].to_vec(), // 1000 bytes
-                5 => [&sd.packets[2][104..], &[0u8][..]].concat(),
-                _ => sd.packets[0][104..sd.packets[0].len() - 3].to_vec(), // cut inside the last record
-            };
+            let enc: Vec<u8> = payload_shape(sd, *enc_kind);
             let canonical = key_bytes.len() == 32 && sig.len() == 64;
             let class = format!("parts:{} key:{}", if canonical { "canonical-lengths" } else { "odd-lengths" }, if ref_point_valid(&key_bytes) { "point" } else { "not-a-point" });
             match SignedPacket::from_parts_unchecked(&key_bytes, &sig, Timestamp::from_micros(*ts), &enc) {
@@ -481,7 +508,7 @@ fn gen_cases(ctx: &Ctx, sd: &Seeds) -> Vec<Case> {
     // single-byte changes
     for (si, pkt) in sd.packets.iter().enumerate() {
         for pos in 0..pkt.len() {
-            let all = ctx.thorough() || pos < 104 || (si == 0 && pos < 104 + 64);
+            let all = ctx.thorough() || (si != 1 && pos < 104) || (si == 0 && pos < 104 + 64);
             if all {
                 for x in 1..=255u8 {
                     cases.push(Case::Mut { seed: si, pos, xor: x });
@@ -547,6 +574,13 @@ fn gen_cases(ctx: &Ctx, sd: &Seeds) -> Vec<Case> {
             cases.push(Case::Raw { len, fill });
         }
     }
+    for key in 0..3 {
+        for ts in [0u64, 1, 9, 10, 1_700_000_000_000_001, u64::MAX - 1, u64::MAX] {
+            for enc_kind in 0..9 {
+                cases.push(Case::SignedPayload { key, ts, enc_kind });
+            }
+        }
+    }
     for seed in 0..3 {
         for key_kind in 0..12 {
             cases.push(Case::UncheckedKey { seed, key_kind });
@@ -555,7 +589,7 @@ fn gen_cases(ctx: &Ctx, sd: &Seeds) -> Vec<Case> {
     for key_kind in 0..7 {
         for sig_len in [64usize, 63, 65, 0, 32, 96] {
             for ts in [0u64, 1_700_000_000_000_001, u64::MAX] {
-                for enc_kind in 0..7 {
+                for enc_kind in 0..9 {
                     cases.push(Case::Parts { key_kind, sig_len, ts, enc_kind });
                 }
             }
@@ -566,7 +600,7 @@ fn gen_cases(ctx: &Ctx, sd: &Seeds) -> Vec<Case> {
 
 fn main() {
     let ctx = Ctx::from_args("C32", Level::Exploration);
-    ctx.set_rule("3 deterministic harness-signed seed packets (2 small under key A, one maximal 1104-byte under key B): every single-byte change (quick: all 255 xor values in the 104 header bytes and the first 64 payload bytes of seed 0, 4 xor values elsewhere; thorough: all positions x 255), two-byte changes on a position grid, every truncation, every adjacent swap, extensions, all 81 key/signature/timestamp/payload splices, relay payloads x 3 keys x 5 offsets, 8 small-order keys x 8 small-order R with S=0 x timestamps, raw fills of lengths 0..120 and 1090..1110, key replacement (valid / not-a-point / small-order) through from_bytes_unchecked, from_parts_unchecked over 7 key shapes x 6 signature lengths x 3 timestamps x 7 payload shapes, and real from_txt_strings over 19 names x 9 value lists x 3 ttls; each byte string goes to from_bytes, from_relay_payload (embedded key) and from_bytes_unchecked, every returned packet through all accessors + Display + Debug; distinct = distinct (case class, outcome) pairs");
+    ctx.set_rule("3 deterministic harness-signed seed packets (2 small under key A, one maximal 1104-byte under key B): every single-byte change (quick: all 255 xor values in the 104 header bytes of seeds 0 and 2 and the first 64 payload bytes of seed 0, 4 xor values elsewhere; thorough: all positions x 255), two-byte changes on a position grid, every truncation, every adjacent swap, extensions, all 81 key/signature/timestamp/payload splices, relay payloads x 3 keys x 5 offsets, 8 small-order keys x 8 small-order R with S=0 x timestamps, raw fills of lengths 0..120 and 1090..1110, key replacement (valid / not-a-point / small-order) through from_bytes_unchecked, authentic harness signatures over 9 payload shapes (parsing and not parsing, 1000 and 1001 bytes) x 3 keys x 7 timestamps, from_parts_unchecked over 7 key shapes x 6 signature lengths x 3 timestamps x 9 payload shapes, and real from_txt_strings over 19 names x 9 value lists x 3 ttls; each byte string goes to from_bytes, from_relay_payload (embedded key) and from_bytes_unchecked, every returned packet through all accessors + Display + Debug; distinct = distinct (case class, outcome) pairs");
     ctx.assume("'verifies' = ed25519-dalek verify (strict or non-strict) over the BEP44 signable built independently in the harness; 'parses' = simple_dns::Packet::parse; curve-point validity = curve25519-dalek decompress");
     ctx.min_outcomes(20);
     let sd = seeds();
@@ -591,5 +625,6 @@ fn main() {
         ctx.sample(&format!("{c:?}").chars().take(10).collect::<String>(), c);
     }
     par_for_each(&cases, |c| run_case(&ctx, &sd, c));
+    ctx.extra("all_class_outcome_pairs", &*ALL.lock().unwrap());
     ctx.finish();
 }
